@@ -3,6 +3,9 @@ package props
 import (
 	"bytes"
 	"compress/flate"
+	"compress/gzip"
+	"compress/zlib"
+	"io"
 	"encoding/base64"
 	"encoding/json"
 	"fmt"
@@ -31,6 +34,7 @@ const (
 	c14DeliveredBound = 20 << 20  // bytes one inflater may deliver ("of the order of the 10 MB cap")
 	c14AllocBound     = 160 << 20 // TotalAlloc delta across ServeHTTP
 	c14Ceiling        = 128 << 20 // the counting reader aborts the execution beyond this
+	c14RetainedBound  = 48 << 20  // live heap kept after the request (and after a history of refused requests); unchanged tree: < 2 MiB
 )
 
 type c14Case struct {
@@ -39,6 +43,8 @@ type c14Case struct {
 	Valid     bool   `json:"valid"`
 	Entry     string `json:"entry"` // sso-query | sso-form | logout-form | logout-query
 	Undeclared bool  `json:"undeclared,omitempty"` // the SAMLEncoding parameter is omitted (payload is DEFLATE all the same)
+	Container string `json:"container,omitempty"` // "" raw DEFLATE (what the binding specifies) | zlib (RFC 1950 wrapper) | gzip (RFC 1952 wrapper)
+	Repeat    int    `json:"repeat,omitempty"`    // the request is sent this many times to the same process first (history); the LAST one is measured
 }
 
 type c14Result struct {
@@ -48,6 +54,7 @@ type c14Result struct {
 	Status     int    `json:"status"`
 	Panic      string `json:"panic,omitempty"`
 	Compressed int    `json:"compressed"`
+	Retained   uint64 `json:"retained"` // live heap after GC following the measured request minus live heap before the first request
 }
 
 // c14Payload streams the padded document through DEFLATE without materialising it.
@@ -89,7 +96,15 @@ func c14Payload(c c14Case, logout bool) []byte {
 		pre, post = s[:i], s[i+len(marker):]
 	}
 	var buf bytes.Buffer
-	w, _ := flate.NewWriter(&buf, flate.BestCompression)
+	var w io.WriteCloser
+	switch c.Container {
+	case "zlib":
+		w, _ = zlib.NewWriterLevel(&buf, zlib.BestCompression)
+	case "gzip":
+		w, _ = gzip.NewWriterLevel(&buf, gzip.BestCompression)
+	default:
+		w, _ = flate.NewWriter(&buf, flate.BestCompression)
+	}
 	w.Write([]byte(pre))
 	chunk := bytes.Repeat([]byte(" "), 1<<20)
 	if c.Placement == "text" || c.Placement == "attr" {
@@ -135,12 +150,23 @@ func c14Worker(c c14Case) c14Result {
 		}
 	}
 	vhook.InflateCeiling.Store(c14Ceiling)
+	runtime.GC()
+	var base, m0, m1, m2 runtime.MemStats
+	runtime.ReadMemStats(&base)
+	for i := 1; i < c.Repeat; i++ {
+		mk() // history: earlier identical requests on the same process
+	}
 	vhook.InflateMaxSingle.Store(0)
 	runtime.GC()
-	var m0, m1 runtime.MemStats
 	runtime.ReadMemStats(&m0)
 	rep := mk()
 	runtime.ReadMemStats(&m1)
+	runtime.GC()
+	runtime.GC()
+	runtime.ReadMemStats(&m2)
+	if m2.HeapAlloc > base.HeapAlloc {
+		res.Retained = m2.HeapAlloc - base.HeapAlloc
+	}
 	res.Delivered = vhook.InflateMaxSingle.Load()
 	res.AllocDelta = m1.TotalAlloc - m0.TotalAlloc
 	res.Status, res.Panic = rep.Status, rep.Panic
@@ -168,7 +194,7 @@ func runC14(ctx Ctx) int {
 		}
 	}
 	run := ev.NewRun("C14")
-	run.Rule = "grid: inflated size {1,8,32,64 MiB quick; +256 MiB, 1 GiB thorough} x padding placement {comment, text, attribute value, after the root element} x surrounding request {valid, invalid} x entry {SSO query, SSO form, logout form, logout query} x SAMLEncoding parameter {declared, omitted}; each case = one real ServeHTTP in a fresh worker process; oracle: bytes delivered by the inflater (counted by the overlay's pass-through reader) <= 20 MiB, TotalAlloc delta <= 160 MiB, and any payload larger than the bound is not accepted"
+	run.Rule = "grid: inflated size {1,8,32,64 MiB quick; +256 MiB, 1 GiB thorough} x padding placement {comment, text, attribute value, after the root element} x surrounding request {valid, invalid} x entry {SSO query, SSO form, logout form, logout query} x SAMLEncoding parameter {declared, omitted}; plus the same data in a zlib (RFC 1950) / gzip container (32, 64 MiB), plus histories of 16 (thorough 40) identical oversized requests on one process with the last one measured; each case = one real ServeHTTP in a fresh worker process; oracle: bytes delivered by the inflater (counted by the overlay's pass-through reader) <= 20 MiB, TotalAlloc delta <= 160 MiB, live heap retained after the request <= 48 MiB, and any payload larger than the bound is not accepted"
 	run.Assume = []string{"the inflater is compress/flate (the byte counter sits on flate.NewReader); if a change replaces it the allocation clause still decides", "the counting reader aborts an execution at 128 MiB so a violating tree is reported instead of exhausting memory"}
 	judge := func(c c14Case, r c14Result) []string {
 		var bad []string
@@ -183,6 +209,9 @@ func runC14(ctx Ctx) int {
 		}
 		if int64(c.SizeMiB)<<20 > c14DeliveredBound && r.Accepted {
 			bad = append(bad, "oversized-payload-accepted")
+		}
+		if r.Retained > c14RetainedBound {
+			bad = append(bad, "memory-proportional-to-inflated-data-retained-after-the-request")
 		}
 		return bad
 	}
@@ -234,6 +263,28 @@ func runC14(ctx Ctx) int {
 			}
 		}
 	}
+	// other containers of the same compressed data (a lenient decoder must stay bounded for them too)
+	for _, ct := range []string{"zlib", "gzip"} {
+		for _, s := range sizes[2:] {
+			for _, pl := range []string{"comment", "text", "attr", "after-root"} {
+				for _, e := range []string{"sso-query", "sso-form", "logout-form", "logout-query"} {
+					cases = append(cases, c14Case{SizeMiB: s, Placement: pl, Valid: true, Entry: e, Container: ct})
+				}
+			}
+		}
+	}
+	// histories: the same oversized request 16 (thorough: 40) times on one process; the last one is measured
+	rep := 16
+	if run.Tier == "thorough" {
+		rep = 40
+	}
+	for _, pl := range []string{"comment", "attr"} {
+		for _, e := range []string{"sso-query", "sso-form", "logout-form", "logout-query"} {
+			for _, v := range []bool{true, false} {
+				cases = append(cases, c14Case{SizeMiB: 32, Placement: pl, Valid: v, Entry: e, Repeat: rep})
+			}
+		}
+	}
 	deadline := devx.Deadline(map[string]time.Duration{"quick": 6 * time.Minute, "thorough": 40 * time.Minute}[run.Tier])
 	// memory-heavy: at most 4 workers at a time
 	os.Setenv("VERIF_WORKERS", "4")
@@ -264,6 +315,12 @@ func runC14(ctx Ctx) int {
 			labels := []string{"entry=" + c.Entry, "placement=" + c.Placement}
 			if c.Undeclared {
 				labels = append(labels, "SAMLEncoding-omitted")
+			}
+			if c.Container != "" {
+				labels = append(labels, "container="+c.Container)
+			}
+			if c.Repeat > 1 {
+				labels = append(labels, "after-a-history-of-identical-requests")
 			}
 			if int64(c.SizeMiB)<<20 > c14DeliveredBound {
 				labels = append(labels, "inflated>bound")
